@@ -97,6 +97,99 @@ def register(gen, T):
     def lean_ops(per):
         return {m: T.lean_list("." + o for o in per[m]) for m in MODES}
 
+
+    # statement (squeezed) -> op of the member loop of `offsets_match`
+    OFF_OPS = {
+        "lethlsl=get_type_layout(module,member.type_id,PackingMode::HlslStructuredBuffer)?": "getHlsl",
+        "letmetal=get_type_layout(module,member.type_id,PackingMode::Metal)?": "getMetal",
+        "offset_hlsl=offset_hlsl.next_multiple_of(hlsl.align)": "alignHlsl",
+        "offset_metal=offset_metal.next_multiple_of(metal.align)": "alignMetal",
+        "ifoffset_hlsl!=offset_metal||!offsets_match(module,member.type_id)?{returnSome(false);}": "requireEqualThenRecurse",
+        "offset_hlsl+=hlsl.size": "advanceHlsl",
+        "offset_metal+=metal.size": "advanceMetal",
+    }
+    ARR_OPS = {
+        "ifcount==0{returnSome(true);}": "zeroCountTrue",
+        "lethlsl=get_type_layout(module,inner,PackingMode::HlslStructuredBuffer)?": "getHlsl",
+        "letmetal=get_type_layout(module,inner,PackingMode::Metal)?": "getMetal",
+        "ifcount>1&&hlsl.size.next_multiple_of(hlsl.align)!=metal.size.next_multiple_of(metal.align){returnSome(false);}":
+            "requireEqualStrideIfSeveral",
+        "offsets_match(module,inner)": "recurse",
+    }
+
+    def offsets_match_tables(lc):
+        """`offsets_match`: per-layer behaviour; the struct member loop and the array arm as op lists"""
+        names = sorted(set(OFF_OPS.values()) | set(ARR_OPS.values()))
+        out = ["/-- one statement of `offsets_match` (fixed vocabulary of the translator) -/\n"
+               "inductive OffOp where\n" + "".join(f"  | {o}\n" for o in names) +
+               "  deriving DecidableEq, Repr, Inhabited\n\n"]
+        try:
+            body = fn_body(lc, "offsets_match")
+        except ExtractError:
+            # the function does not exist (pre-fix source): nothing below a type is compared
+            out.append("def hasOffsetsMatch : Bool := false\n"
+                       "def offsetsInit : Nat × Nat := (0, 0)\n"
+                       "def offsetsMemberOps : List OffOp := []\n"
+                       "def offsetsArrayOps : List OffOp := []\n"
+                       "def offsetsModifierIsInner : Bool := false\n")
+            return "".join(out)
+        scrut, arms_text, _ = first_match(body, None, 0)
+        if squeeze(scrut) != "module.type_registry.get_type_layer(ty)":
+            raise ExtractError(f"offsets_match: scrutinee {scrut!r}")
+        member_ops = array_ops = init = None
+        modifier_inner = default_true = False
+        for pats, guard, result in match_arms(arms_text):
+            if guard is not None or len(pats) != 1:
+                raise ExtractError("offsets_match: guard / alternative patterns unsupported")
+            p, res = squeeze(pats[0]), result.strip()
+            if p == "TypeLayer::Struct(sid)":
+                st = statements(res[1:matching(res, 0)])
+                if squeeze(st[0]) != "letdef=&module.struct_registry[sid.0asusize]":
+                    raise ExtractError("offsets_match: Struct arm first statement changed")
+                mi = re.fullmatch(r"let\(mutoffset_hlsl,mutoffset_metal\)=\((\d+)u32,(\d+)u32\)", squeeze(st[1]))
+                if not mi:
+                    raise ExtractError("offsets_match: initial offsets not literals")
+                init = (int(mi.group(1)), int(mi.group(2)))
+                lm = re.match(r"for\s+member\s+in\s+&def\.members\s*\{", st[2])
+                if not lm or len(st) != 4 or squeeze(st[3]) != "Some(true)":
+                    raise ExtractError("offsets_match: Struct arm frame changed")
+                lb = st[2][lm.end() - 1:]
+                member_ops = []
+                for x in statements(lb[1:matching(lb, 0)]):
+                    k = squeeze(x)
+                    if k not in OFF_OPS:
+                        raise ExtractError(f"offsets_match: member statement {normws(x)!r} is outside the vocabulary")
+                    member_ops.append(OFF_OPS[k])
+            elif p == "TypeLayer::Array(inner,Some(count))":
+                array_ops = []
+                for x in statements(res[1:matching(res, 0)]):
+                    k = squeeze(x)
+                    if k not in ARR_OPS:
+                        raise ExtractError(f"offsets_match: array statement {normws(x)!r} is outside the vocabulary")
+                    array_ops.append(ARR_OPS[k])
+            elif p == "TypeLayer::Modifier(_,ty)":
+                if squeeze(res) != "offsets_match(module,ty)":
+                    raise ExtractError("offsets_match: Modifier arm changed")
+                modifier_inner = True
+            elif p == "_":
+                if squeeze(res) != "Some(true)":
+                    raise ExtractError("offsets_match: default arm changed")
+                default_true = True
+            else:
+                raise ExtractError(f"offsets_match: arm {pats[0]!r} unsupported")
+        if member_ops is None or array_ops is None or not default_true:
+            raise ExtractError("offsets_match: struct/array/default arm missing")
+        out.append("/-- `check_layout` calls `offsets_match` -/\ndef hasOffsetsMatch : Bool := true\n\n")
+        out.append(f"/-- initial `(offset_hlsl, offset_metal)` of the Struct arm -/\n"
+                   f"def offsetsInit : Nat × Nat := ({init[0]}, {init[1]})\n\n")
+        out.append("/-- Struct arm of `offsets_match`: the member loop body -/\n"
+                   "def offsetsMemberOps : List OffOp := " + T.lean_list("." + o for o in member_ops) + "\n\n")
+        out.append("/-- Array(inner, Some(count)) arm of `offsets_match` -/\n"
+                   "def offsetsArrayOps : List OffOp := " + T.lean_list("." + o for o in array_ops) + "\n\n")
+        out.append(f"/-- `Modifier(_, ty) => offsets_match(module, ty)`; every other layer is `Some(true)` -/\n"
+                   f"def offsetsModifierIsInner : Bool := {'true' if modifier_inner else 'false'}\n")
+        return "".join(out)
+
     @gen("LayoutTables")
     def gen_layout_tables():
         ir_types = T.src("ir/src/ir_types.rs")
@@ -284,8 +377,17 @@ def register(gen, T):
         if len(ls) < 3 or squeeze(ls[0]) != want_get["HlslStructuredBuffer"] or squeeze(ls[1]) != want_get["Metal"]:
             raise ExtractError("check_layout: the two get_type_layout calls changed")
         top = {"HlslStructuredBuffer": [], "Metal": []}
+        want_offsets = ("letoffsets_match=matchoffsets_match(module,ty){Some(same)=>same,"
+                        "None=>returnErr(LayoutError::UnknownLayout(loc)),}")
+        calls_offsets = False
         for s in ls[2:-1]:
             k = squeeze(s)
+            if k == want_offsets:
+                # must come after the size adjustments (it is the last statement before the comparison)
+                if s is not ls[-2]:
+                    raise ExtractError("check_layout: offsets_match is not called right before the comparison")
+                calls_offsets = True
+                continue
             hit = False
             for mode, var in (("HlslStructuredBuffer", "layout_hlsl"), ("Metal", "layout_metal")):
                 k2 = k.replace(var, "layout")
@@ -301,10 +403,15 @@ def register(gen, T):
             raise ExtractError("check_layout: comparison statement changed")
         cond = cm.group(1)
         conds = {"layout_hlsl.size!=layout_metal.size": "sizeOnly",
-                 "layout_hlsl!=layout_metal": "sizeAndAlign"}
+                 "layout_hlsl!=layout_metal": "sizeAndAlign",
+                 "layout_hlsl.size!=layout_metal.size||!offsets_match": "sizeAndOffsets"}
         if cond not in conds:
             raise ExtractError(f"check_layout: comparison {cond!r} unsupported")
-        out.append("inductive Compare where | sizeOnly | sizeAndAlign deriving DecidableEq, Repr, Inhabited\n\n")
-        out.append(f"/-- what `check_layout` compares -/\ndef checkCompare : Compare := .{conds[cond]}\n")
+        if (conds[cond] == "sizeAndOffsets") != calls_offsets:
+            raise ExtractError("check_layout: offsets_match call and comparison do not belong together")
+        out.append("inductive Compare where | sizeOnly | sizeAndAlign | sizeAndOffsets\n"
+                   "  deriving DecidableEq, Repr, Inhabited\n\n")
+        out.append(f"/-- what `check_layout` compares -/\ndef checkCompare : Compare := .{conds[cond]}\n\n")
+        out.append(offsets_match_tables(lc))
         out.append(T.footer("LayoutTables"))
         return "".join(out)
